@@ -64,13 +64,23 @@ def confirm(wt, pid, slug):
     # the pinned suite with the change (demo test excluded)
     tmpdemo = demo + ".off"
     os.rename(demo, tmpdemo)
-    rcs, outs = sh("go test -vet=off -count=1 -timeout 25m ./... 2>&1", cwd=wt, timeout=2400)
+    # the pinned suite: every test of BASELINE.json's stable_pass list must still pass.
+    # (Test_lexer panics also on the pinned tree and would abort the rest of its package: skipped, like Test_pligin.)
+    rcs, outs = sh("go test -json -vet=off -count=1 -timeout 25m -skip '^(Test_lexer|Test_pligin)$' ./... 2>&1", cwd=wt, timeout=2400)
     os.rename(tmpdemo, demo)
-    failed = set(re.findall(r"--- FAIL: (\w+)", outs))
-    meta["ran"].append({"cmd": "go test -vet=off -count=1 ./... (with the change, demonstration excluded)", "failed_tests": sorted(failed)})
-    print("suite with the change: failing tests =", sorted(failed))
-    if failed - BASELINE_FAIL:
-        print("the change breaks existing tests: ", sorted(failed - BASELINE_FAIL))
+    passed = set()
+    for line in outs.split("\n"):
+        try:
+            ev = json.loads(line)
+        except ValueError:
+            continue
+        if ev.get("Action") == "pass" and ev.get("Test"):
+            passed.add(ev["Package"] + "::" + ev["Test"])
+    stable = json.load(open("/root/.vp/BASELINE.json"))["stable_pass"]
+    missing = [t for t in stable if t not in passed]
+    meta["ran"].append({"cmd": "go test -json -vet=off -count=1 -skip '^(Test_lexer|Test_pligin)$' ./... (with the change, demonstration excluded)", "stable_pass_tests": len(stable), "not_passing": missing})
+    print("suite with the change: %d of %d baseline tests pass; not passing: %s" % (len(stable) - len(missing), len(stable), missing))
+    if missing:
         return 1
     d = os.path.join(ROOT, "seeded", slug)
     os.makedirs(d, exist_ok=True)
